@@ -327,6 +327,46 @@ theorem handshake_sound (ipLit : Str → Option Str) (cert : Cert) (name : Str) 
 
 example : handshakeRc (checkName (ipLit true) ⟨[.dns [97,0,98]], []⟩ [97]) = (-1, "nul-san") := by decide
 
+/-- helper: from a state that is not falsely "complete", every call of a script gives the same
+    answer, fixed by the verdict of the name check -/
+theorem runCalls_const (r : Res) : ∀ (calls : List Call) (c : Client),
+    (c.complete = true → r = .ok) →
+    ∀ x ∈ runCalls r c calls, x = (decide (r = .ok), (handshakeRc r).2)
+  | [], _, _ => by simp [runCalls]
+  | k :: ks, c, hc => by
+    intro x hx
+    simp only [runCalls, List.mem_cons] at hx
+    rcases hx with hx | hx
+    · subst hx
+      cases r <;> cases k <;> cases c with | mk b => cases b <;>
+        first | rfl | (exact absurd (hc rfl) (by decide))
+    · refine runCalls_const r ks _ ?_ x hx
+      cases r <;> cases k <;> cases c with | mk b => cases b <;>
+        first | (intro _; rfl) | (intro h; exact absurd h (by decide)) | (exact absurd (hc rfl) (by decide))
+
+/-- RETRIES DO NOT CHANGE THE VERDICT: on one connection, whatever sequence of further
+    `tls_handshake` / `tls_write` / `tls_read` calls the application makes, every call succeeds
+    exactly when the certificate covers the name given to the connect call — a refused name
+    (mismatch, wildcard misuse, IP literal, malicious NUL/" " name) stays refused with its
+    explanatory text, inside read/write too, and an accepted one stays accepted. -/
+theorem verdict_stable_under_retry (ipLit : Str → Option Str) (cert : Cert) (name : Str)
+    (calls : List Call) :
+    ∀ x ∈ runCalls (checkName ipLit cert name) ⟨false⟩ calls,
+      x = (decide (checkName ipLit cert name = .ok), (handshakeRc (checkName ipLit cert name)).2) ∧
+      (x.1 = true → Covers ipLit cert name) := by
+  intro x hx
+  have h := runCalls_const (checkName ipLit cert name) calls ⟨false⟩ (by intro h; cases h) x hx
+  refine ⟨h, fun hx1 => ?_⟩
+  rw [h] at hx1
+  exact sound ipLit cert name (by simpa using hx1)
+
+-- "a\0b" asked for "a": handshake, handshake, write, read — refused four times with the same text;
+-- "*.a.b" asked for "c.a.b": accepted every time
+example : runCalls (checkName (ipLit true) ⟨[.dns [97,0,98]], []⟩ [97]) ⟨false⟩ [.hs, .hs, .wr, .rd] =
+      [(false, "nul-san"), (false, "nul-san"), (false, "nul-san"), (false, "nul-san")] ∧
+    runCalls (checkName (ipLit true) ⟨[.dns [42,46,97,46,98]], []⟩ [99,46,97,46,98]) ⟨false⟩ [.wr, .hs, .rd] =
+      [(true, "none"), (true, "none"), (true, "none")] := by decide
+
 /-! ## the unchanged code violates the property (defects F17, F18) -/
 
 /-- F17: before the repair, `*.a.` (one non-empty label after `*.`) matched `c.a.`, which the
